@@ -24,12 +24,12 @@ class C03(Prop):
     pid = "C03"
     prop_file = "Props/C03.v"
     module = "Props.C03"
-    gen_deps = ["Table", "StripFn", "ParserFn", "WinconFn", "StreamFn"]
+    gen_deps = ["Table", "StripFn", "ParserFn", "WinconFn", "StreamFn", "Utf8parseFn"]
     harness = ("h-core", "hcore")
     nontrivial_rule = ("cases: all 2^(n-1) partitions of short escape-rich inputs (n<=11) and of random grammar inputs (n<=9 quick, 12 thorough); seeded random "
                        "partitions (single-byte, fixed stride, random cuts) of long grammar streams; byte API cut anywhere, text API cut at character boundaries. "
                        "non-trivial = distinct case with at least one cut whose input loses at least one byte to stripping")
-    trusted = ["third-party utf8parse automaton: transcribed (Model/Utf8parse.v), tied by every multi-byte case"]
+    trusted = ["third-party utf8parse automaton: TRANSLATED from the registry source of the version Cargo.lock pins (tools/gen_fn_utf8parse.py: unpacked source = the archive of the lock file's checksum = the directory cargo metadata reports for the harness crates) and proved equal to Model/Utf8parse.v (Proofs/Utf8parseGen.v); also tied by every multi-byte case. Trusted: cargo builds the harness from that directory; a Receiver = the list of calls it gets; char::from_u32_unchecked = identity (precondition proved)"]
     assumptions = ["input bytes are < 256 (u8)", "text chunks are valid UTF-8 (type &str)"]
 
     def streams(self, tier, rng):
